@@ -33,6 +33,8 @@ Simple == <<
   << P("{%", ""), O, P("set", "tag"), W, P("y", ""), O, P("=", ""), O, P("1.5", "num"), O, P("%}", "") >>,
   << P("{%", ""), O, P("include", "tag"), W, P("'p'", "str"), O, P("%}", "") >>,
   << P("{%", ""), O, P("do", "tag"), W, P("true", "bool"), O, P("%}", "") >>,
+  (* the body of a verbatim section is a text run: its anchor is its own first byte *)
+  << P("{%", ""), O, P("verbatim", ""), O, P("%}", ""), PB(<<32, 123, 123, 32, 118, 10, 125, 125>>, "text"), P("{%", ""), O, P("endverbatim", ""), O, P("%}", "") >>,
   << P("{{", "print"), O, P("null", "null"), O, P("?", ""), O, P("a", "name"), O, P(":", ""), O, P("b", "name"), O, P("}}", "") >>,
   << P("{{", "print"), O, P("f", "call"), P("(", ""), O, P("a", "name"), O, P(",", ""), O, P("3", "num"), O, P(")", ""), O, P("}}", "") >>,
   << P("{%", ""), O, P("import", "tag"), W, P("'p'", "str"), W, P("as", ""), W, P("q", ""), O, P("%}", "") >>,
@@ -148,11 +150,14 @@ InjectionCases ==
       c \in 1..NS, q \in 1..20, ik \in {"illegal", "surplus", "illegalmb"}, pre \in 1..2 }
 InjOK(x) == LET ps == Con(x.c) IN x.q \in SlotsOf(ps) /\ (x.ik \in {"illegal", "illegalmb"} \/ BeforeClose(ps, x.q))
                                   /\ ps[1][1] \in {<<123, 123>>, <<123, 37>>}
+                                  (* a malformed endverbatim tag is body text of the verbatim section, not a tag *)
+                                  /\ ~\E q \in 1..Len(ps) : ps[q][1] = S2B("verbatim")
 Prefixes == << <<>>, << PB(<<108, 49, 10, 108, 50, 10, 32, 32>>, "") >> >>      \* "l1\nl2\n  " before the construct
 
 (* ---- case index space: positions templates, then truncations, injections ---- *)
 Init == v_lvl = 0 /\ v_idx = <<"", 0, 0>>
-TruncTemplates == {j \in 0..(SmallT - 1) : j % TruncStride = SeedMod(TruncStride)}
+(* (the verbatim construct is left out of the truncations: OpenAt does not know that a verbatim body is an open block) *)
+TruncTemplates == {j \in 0..(SmallT - 1) : j % TruncStride = SeedMod(TruncStride) /\ ~\E q \in 1..Len(Template(j)) : Template(j)[q][1] = S2B("verbatim")}
 Next ==
   \/ /\ v_lvl = 0 /\ v_lvl' = 1 /\ \E c \in 0..31 : v_idx' = <<"chunk", c, 0>>
   \/ /\ v_lvl = 1 /\ v_lvl' = 2
@@ -160,7 +165,7 @@ Next ==
         \/ \E j \in {q \in TruncTemplates : q % 32 = v_idx[2]} : \E cut \in 0..Len(CatP(Template(j))) : v_idx' = <<"trunc", j, cut>>
         \/ /\ v_idx[2] = 0
            /\ \/ \E x \in {y \in InjectionCases : InjOK(y)} : v_idx' = <<"inj", x.c * 1000 + x.q * 10 + (CASE x.ik = "illegal" -> 0 [] x.ik = "surplus" -> 1 [] OTHER -> 2), x.pre>>
-              \/ \E c \in 1..NCon : \E pre \in 1..2 : Con(c)[1][1] = <<123, 37>> /\ v_idx' = <<"tag", c, pre>>
+              \/ \E c \in 1..NCon : \E pre \in 1..2 : Con(c)[1][1] = <<123, 37>> /\ Con(c)[3][2] = "tag" /\ v_idx' = <<"tag", c, pre>>
 
 Kind == v_idx[1]
 PosPieces == Template(v_idx[2])
